@@ -237,24 +237,15 @@ ConsensusFaultPaid(pre, e) ==
          /\ BLeq(paid, BAdd(burnt, paid))          \* the reporter gets no more than was taken
          /\ M2.cfElapsed > e.st.epoch
 \* "each deadline through which a sector stays faulty charges the miner a continued-fault fee for its power":
-\* a tick that closes exactly one deadline of a miner whose cron is running, with sectors of that deadline faulty
-\* (declared, skipped, missed earlier, or recovering-but-unproven) when it closes, takes something from the miner
-\* -- burnt at once or recorded as fee debt.  (The size of the fee is a numeric function of the network's reward
-\* and power estimates and is not re-derived here; with equal-sized sectors it is positive whenever a sector is faulty.)
-ClosingIn(M, E, n) == {x \in E..(E + n - 1) : (x - M.pps) % W_ = W_ - 1}
+\* the driver prices, with the protocol's own fee function and the estimates the callback reads, the faulty power of
+\* every deadline at the moment it closes (e.ffee, per miner, summed over the epochs of the tick); at least that much
+\* must have left the miner -- burnt at once or recorded as new fee debt -- in this tick.  (Other charges of the same
+\* callbacks -- daily fees, expired pre-commit deposits, termination fees -- only add to what is taken.)
 ContinuedFaultCharged(pre, e, lost) ==
-  \* (the fee is a share of the expected block reward: it is positive only while the network's smoothed QA-power
-  \* estimate is positive; in the harness's tiny network the alpha-beta filter, started at the protocol's initial
-  \* estimate, undershoots below zero after about a thousand epochs -- outside that regime nothing is demanded)
-  (e.ev = "Tick" /\ e.cronOK /\ Len(e.fails) = 0 /\ BIsPos(pre.power.qaSmoothed) /\ BIsPos(e.st.power.qaSmoothed)) =>
-    \A i \in Idx(pre.miners) :
-      LET M1 == pre.miners[i] cl == ClosingIn(M1, pre.epoch, e.n) IN
-      (M1.cronActive /\ M1.m \notin lost /\ Cardinality(cl) = 1) =>
-         LET x == CHOOSE y \in cl : TRUE
-             d == ((x - M1.pps) \div W_) % D     \* (computed from the offset: the recorded index may lag, see F2)
-             M2 == MinerByName(e.st, M1.m)
-         IN  (x >= M1.pps /\ DlFaults(M1, d + 1) # {}) =>
-               BIsPos(BAdd(SentFrom(e.tr, M1.m, "f099"), BSub(M2.debt, M1.debt)))
+  (e.ev = "Tick" /\ e.cronOK /\ Len(e.fails) = 0) =>
+    \A i \in Idx(e.ffee) :
+      LET m == e.ffee[i][1] M1 == MinerByName(pre, m) M2 == MinerByName(e.st, m) IN
+      m \in lost \/ BLeq(e.ffee[i][2], BAdd(SentFrom(e.tr, m, "f099"), BSub(M2.debt, M1.debt)))
 \* "a successfully disputed proof removes the power and penalises the miner": the disputed partitions' sectors
 \* that were credited are faulty afterwards, and the miner paid (burnt + disputer's reward + new debt > 0);
 \* the disputer receives no more than was taken
